@@ -18,6 +18,8 @@ type boundsProver struct {
 	c     *Ctx
 	e     *nilEngine
 	depth int
+	// induction hypotheses of the upper-bound proofs in progress: loop-header phi -> the bound being proved for it
+	ubAssume map[*ssa.Phi]int64
 }
 
 // sameSeq: a and b denote the same sequence value (same SSA value, or loads of the same cell with no
@@ -460,6 +462,16 @@ func (bp *boundsProver) proveLen(v ssa.Value, x ssa.Value, goal relGoal, at ssa.
 			}
 		}
 	}
+	// a constant upper bound of v against the minimum length of x known here
+	if ml := bp.minLenAt(x, at, atBlock); ml > 0 {
+		k := ml - 1
+		if goal == leLen {
+			k = ml
+		}
+		if bp.ubConst(v, k, atBlock, nil, map[ssa.Value]bool{}, d+1) {
+			return true
+		}
+	}
 	switch w := v.(type) {
 	case *ssa.Phi:
 		if seen[w] {
@@ -628,6 +640,66 @@ func counterFormSeq(idx ssa.Value) ssa.Value {
 	return nil
 }
 
+// rangeIndexConst: idx visits 0, 1, .., n-1 for a constant n: the index of `for i := range arr` over an array (or
+// `for i := range n`), or the counter of `for i := 0; i < n; i++`. Inside the loop body 0 <= idx <= n-1; the range
+// form's idx is only ever used inside the body (the header tests it before the body is entered).
+func rangeIndexConst(idx ssa.Value) (int64, bool) {
+	if add, ok := idx.(*ssa.BinOp); ok && add.Op == token.ADD {
+		phi, ok := add.X.(*ssa.Phi)
+		if !ok {
+			return 0, false
+		}
+		if one, ok := constInt(add.Y); !ok || one != 1 {
+			return 0, false
+		}
+		start := false
+		for _, ed := range phi.Edges {
+			if k, ok := constInt(ed); ok && k == -1 {
+				start = true
+			} else if ed != idx {
+				return 0, false
+			}
+		}
+		if !start {
+			return 0, false
+		}
+		// the comparison that guards the body: idx < n as the terminator of idx's own block
+		blk := add.Block()
+		if iff, ok := blk.Instrs[len(blk.Instrs)-1].(*ssa.If); ok {
+			if cmp, ok := iff.Cond.(*ssa.BinOp); ok && cmp.Op == token.LSS && cmp.X == idx {
+				if n, ok := constInt(cmp.Y); ok && n >= 0 {
+					return n, true
+				}
+			}
+		}
+		return 0, false
+	}
+	// counter form: phi(0, i+1) tested `i < n` in the loop header
+	if phi, ok := idx.(*ssa.Phi); ok && len(phi.Edges) == 2 {
+		zero, step := false, false
+		for _, ed := range phi.Edges {
+			if k, ok := constInt(ed); ok && k == 0 {
+				zero = true
+			} else if add, ok := ed.(*ssa.BinOp); ok && add.Op == token.ADD && add.X == idx {
+				if one, ok := constInt(add.Y); ok && one == 1 {
+					step = true
+				}
+			}
+		}
+		if zero && step {
+			blk := phi.Block()
+			if iff, ok := blk.Instrs[len(blk.Instrs)-1].(*ssa.If); ok {
+				if cmp, ok := iff.Cond.(*ssa.BinOp); ok && cmp.Op == token.LSS && cmp.X == idx {
+					if n, ok := constInt(cmp.Y); ok && n >= 0 {
+						return n, true
+					}
+				}
+			}
+		}
+	}
+	return 0, false
+}
+
 // geZero: v >= 0 at the given point.
 func (bp *boundsProver) geZero(v ssa.Value, atBlock *ssa.BasicBlock, seen map[ssa.Value]bool, d int) bool {
 	if d > bp.depth {
@@ -640,6 +712,9 @@ func (bp *boundsProver) geZero(v ssa.Value, atBlock *ssa.BasicBlock, seen map[ss
 		return true
 	}
 	if rangeIndexSeq(v) != nil {
+		return true
+	}
+	if _, ok := rangeIndexConst(v); ok {
 		return true
 	}
 	if b, ok := v.Type().Underlying().(*types.Basic); ok && b.Info()&types.IsUnsigned != 0 {
@@ -778,6 +853,9 @@ func (bp *boundsProver) ubConst(v ssa.Value, k int64, atBlock *ssa.BasicBlock, e
 			return true
 		}
 	}
+	if n, ok := rangeIndexConst(v); ok && n-1 <= k {
+		return true
+	}
 	conds := dominatingConds(atBlock)
 	if edgeTo != nil {
 		if iff, ok := atBlock.Instrs[len(atBlock.Instrs)-1].(*ssa.If); ok && atBlock.Succs[0] != atBlock.Succs[1] {
@@ -800,14 +878,41 @@ func (bp *boundsProver) ubConst(v ssa.Value, k int64, atBlock *ssa.BasicBlock, e
 		if (op == token.LEQ && c <= k) || (op == token.LSS && c-1 <= k) || (op == token.EQL && c <= k) {
 			return true
 		}
+		// v != k+1 is known: v <= k+1 suffices (the counter that stops one short of the limit)
+		if op == token.NEQ && c == k+1 && !seen[bo] {
+			seen[bo] = true
+			ok := bp.ubConst(v, k+1, atBlock, edgeTo, seen, d+1)
+			delete(seen, bo)
+			if ok {
+				return true
+			}
+		}
 	}
 	switch w := v.(type) {
+	case *ssa.BinOp:
+		// x + c <= k  <=  x <= k - c   (no wrap-around: c small and k small, int arithmetic)
+		if w.Op == token.ADD {
+			if c, ok := constInt(w.Y); ok && c >= 0 && c < 1<<20 && k < 1<<40 {
+				return bp.ubConst(w.X, k-c, atBlock, edgeTo, seen, d+1)
+			}
+		}
 	case *ssa.Phi:
 		if seen[w] {
+			// induction: the bound being proved for this phi may be assumed for its value in the iteration at hand
+			if a, ok := bp.ubAssume[w]; ok && a <= k {
+				return true
+			}
 			return false
 		}
 		seen[w] = true
 		defer delete(seen, w)
+		if bp.ubAssume == nil {
+			bp.ubAssume = map[*ssa.Phi]int64{}
+		}
+		if _, nested := bp.ubAssume[w]; !nested {
+			bp.ubAssume[w] = k
+			defer delete(bp.ubAssume, w)
+		}
 		for i, ed := range w.Edges {
 			if ed == ssa.Value(w) {
 				continue
